@@ -461,6 +461,11 @@ def run_batch(pid: str, tier: str, verif_seed: int, runs: Optional[int], workers
 
     exit_code = 0
     reported = []
+    if unknown and os.environ.get("VERIF_TRIAGE"):
+        for key, info in sorted(unknown.items(), key=lambda kv: (kv[0][1], kv[0][0])):
+            print(f"TRIAGE {key[0]} @ {key[1]} {dict(key[2])}: {info['rec']['detail'][:400]}")
+            print("   plan:", json.dumps(info["plan"].get("steps"), default=core._default)[:700])
+        return 1
     if unknown:
         limit = 4
         for key, info in sorted(unknown.items(), key=lambda kv: kv[1]["size"])[:limit]:
